@@ -91,14 +91,17 @@ def gen_configs(ctx):
              "n_iter": n_iter, "model": "exp"}
         c.update(kw)
         return c
-    cfgs = [base(2 if ctx.quick else 3)]
-    if not ctx.quick:
-        cfgs.append(base(4, sample_modes=["linear_resample", "nonlinear_update", "nonlinear_resample", "linear_sample"],
-                         n_samples=[1, 2, 2, 2], model="cubic"))
-        cfgs.append(base(3, tree=True, data=[round(float(x), 3) for x in rng.normal(size=4)], point_estimates=["b"],
-                         sample_modes=["linear_resample", "linear_resample", "nonlinear_resample"]))
-        cfgs.append(base(2, n_samples=0, jit=False))           # MAP run, no jit
-    return cfgs
+    if ctx.quick:
+        return [(base(2), "medium", 2, False)]
+    # (configuration, enumeration level, number of random crash chains, also first runs with resume=True)
+    return [
+        (base(3), "full", 6, True),
+        (base(4, sample_modes=["linear_resample", "nonlinear_update", "nonlinear_resample", "linear_sample"],
+              n_samples=[1, 2, 2, 2], model="cubic"), "medium", 4, False),
+        (base(3, tree=True, data=[round(float(x), 3) for x in rng.normal(size=4)], point_estimates=["b"],
+              sample_modes=["linear_resample", "linear_resample", "nonlinear_resample"]), "light", 2, False),
+        (base(2, n_samples=0, jit=False), "light", 0, True),          # MAP run, no jit
+    ]
 
 
 def open_intervals(ops):
@@ -114,20 +117,25 @@ def open_intervals(ops):
     return out
 
 
-def crash_points(ctx, ops, budget=1):
-    """All crash points of a traced run: kill before every op and after the last one; flush variant
-    wherever a state file is open (quick) / any file is open (thorough); torn variants of every write."""
+def crash_points(ops, level):
+    """Crash points of a traced run.  Every level: kill before every operation and after the last
+    one.  light: + one torn variant of every state-file write.  medium: + buffers flushed wherever a
+    state file is open.  full: flush wherever any file is open, three torn fractions for state-file
+    writes, one for log writes."""
     n = len(ops)
     opened = open_intervals(ops)
-    fracs = [0.5] if (ctx.quick and budget == 1) else [0.0, 0.03, 0.5, 0.97]
     pts = [[(k, "kill", 0.0)] for k in range(n + 1)]
     for k in range(n):
         files = opened[k]
-        if files and (not ctx.quick or any(f != "minisanity.txt" for f in files)):
+        state = any(f != "minisanity.txt" for f in files)
+        if files and ((level == "medium" and state) or level == "full"):
             pts.append([(k, "flush", 0.0)])
-        if ops[k][0] == "write" and (not ctx.quick or ops[k][1] != "minisanity.txt" or budget > 1):
-            for fr in fracs:
-                pts.append([(k, "torn", fr)])
+        if ops[k][0] == "write":
+            if ops[k][1] != "minisanity.txt":
+                for fr in ([0.03, 0.5, 0.97] if level == "full" else [0.5]):
+                    pts.append([(k, "torn", fr)])
+            elif level == "full":
+                pts.append([(k, "torn", 0.5)])
     return pts
 
 
@@ -337,8 +345,8 @@ class C24(C.Check):
                     break
             else:
                 groups.append((e["case"], [(e["cps"], bool(e.get("r0", False)))], key))
-        groups += [(c, None, None) for c in cfgs]
-        for ci, (cfg, corp, _) in enumerate(groups):
+        groups += [(c, None, (lvl, nch, wr)) for c, lvl, nch, wr in cfgs]
+        for ci, (cfg, corp, plan) in enumerate(groups):
             ref = self.reference(ctx, ci, cfg, twice=corp is None)
             self.refs.append((cfg, ref))
             n = cfg["n_iter"]
@@ -361,11 +369,13 @@ class C24(C.Check):
                     if pts:
                         runs.append((pts, r0, "k%d" % r0))
             else:
-                pts = crash_points(ctx, ref["ops"]) + chain_points(ctx, ref["ops"], rng, 2 if ctx.quick else 10)
+                lvl, nch, with_r = plan
+                pts = crash_points(ref["ops"], lvl) + chain_points(ctx, ref["ops"], rng, nch)
                 runs.append((pts, False, "p"))
-                if not ctx.quick:
+                if with_r:
                     # a first run started with resume=True on an empty directory (common usage)
-                    runs.append(([p for p in crash_points(ctx, ref["ops"]) if p[0][1] == "kill"][::3], True, "r"))
+                    # (its operation list lacks the truncation of the log: kill points only)
+                    runs.append(([p for p in crash_points(ref["ops"], "light") if p[0][1] == "kill"][::3], True, "r"))
             for pts, r0, tag in runs:
                 for (cfg_, ref_, cps, r0_, reps) in self.run_points(ctx, ci, cfg, ref, pts, r0=r0, tag=tag):
                     checks.append(chain_check(False, extras, n, r0, cps, reps))
@@ -415,7 +425,7 @@ class C24(C.Check):
             # widen: all torn fractions and log-file points of the first configuration
             cfg, ref = self.refs[0]
             done = {tuple(c) for (_, _, c, _, _) in self.obs}
-            pts = [p for p in crash_points(ctx, ref["ops"], budget) if tuple(p) not in done]
+            pts = [p for p in crash_points(ref["ops"], "full") if tuple(p) not in done]
             pts += chain_points(ctx, ref["ops"], ctx.rng(2401), 12)
             for (cfg_, ref_, cps, r0, reps) in self.run_points(ctx, 0, cfg, ref, pts, tag="w"):
                 n += 1
